@@ -86,6 +86,52 @@ theorem C04_roundtrip_partial
     simp
   · exact mapM_unser ty vs Hwt
 
+/-! ### the first half of the injectivity lemma, and the composition with it discharged -/
+
+/-- **`Spec.interp ∘ ser = lv` at the traced field**, for every option set, on the fragment `frag`: scalars, `()`, unit
+structs, Option, newtype structs, Vec, maps and structs (fields matched by name, `skip_serializing_if` fields left
+out).  `_partial`: tuples / tuple structs (positional names) and enums (Union, with the `noneAtUnion` exclusion) are
+not in `frag` yet; instances for them are checked on examples below. -/
+theorem C04_interp_ser_partial (ext : Ext) (o : TraceOpts) (t : Ty) (v : Val) (dt : DataType) (nb : Bool) (md : Metadata)
+    (hf : frag t = true) (hw : wt t v = true) (hm : mappingDT o t = (dt, nb, md)) :
+    interpDT ext dt nb md (ser t v) = .ok (lv t v) :=
+  interp_ser ext o t v nb dt nb md hf hw hm (fun h => h)
+
+theorem Fields.ofList_toList : ∀ (l : Fields), Fields.ofList l.toList = l
+  | .nil => rfl
+  | .cons f r => by simp [Fields.toList, Fields.ofList, Fields.ofList_toList r]
+
+/-- at the root: a record type of the fragment against the schema `from_type` returns for it -/
+theorem C04_interpRow_partial (ext : Ext) (o : TraceOpts) (n : String) (fs : TFields) (v : Val) (fields : List Field)
+    (hf : frag (.struct n fs) = true) (hw : wt (.struct n fs) v = true)
+    (hroot : mappingRoot o (.struct n fs) = some fields) :
+    interpRow ext fields (ser (.struct n fs) v) = .ok (lv (.struct n fs) v) := by
+  have hfields : fields = (mappingFields o fs).toList := by
+    simp [mappingRoot, mappingDT] at hroot; exact hroot.symm
+  subst hfields
+  unfold interpRow
+  rw [Fields.ofList_toList]
+  exact interp_ser ext o (.struct n fs) v false _ false [] hf hw (by simp [mappingDT]) (fun h => h)
+
+/-- **C04 with the injectivity lemma discharged** (record types of the fragment): only the three interface
+hypotheses H8 / H1 / H2 remain. -/
+theorem C04_roundtrip_core_partial
+    (fromType : TraceOpts → Ty → R (List Field))
+    (readTyped : Ty → List Field → List Arr → R (List Val))
+    (ext : Ext) (o : TraceOpts) (n : String) (fs : TFields) (vs : List Val) (fields : List Field) (arrs : List Arr)
+    (H8 : fromType o (.struct n fs) = .ok fields ∧ mappingRoot o (.struct n fs) = some fields)
+    (H1 : toMarrow ext fields (vs.map (ser (.struct n fs))) = .ok arrs ∧
+          ∀ i (h : i < vs.length), decodeRow fields arrs i = interpRow ext fields (ser (.struct n fs) vs[i]))
+    (H2 : ∀ (lvs : List LVal) (vals : List Val),
+          (∀ i (h : i < lvs.length), decodeRow fields arrs i = .ok lvs[i]) →
+          lvs.mapM (unser (.struct n fs)) = some vals → readTyped (.struct n fs) fields arrs = .ok vals)
+    (Hfrag : frag (.struct n fs) = true)
+    (Hwt : ∀ v ∈ vs, wt (.struct n fs) v = true) :
+    toMarrow ext fields (vs.map (ser (.struct n fs))) = .ok arrs ∧
+      readTyped (.struct n fs) fields arrs = .ok (vs.map (norm (.struct n fs))) :=
+  C04_roundtrip_partial fromType readTyped ext o (.struct n fs) vs fields arrs H8 H1 H2 Hwt
+    (fun v hv => C04_interpRow_partial ext o n fs v fields Hfrag (Hwt v hv) H8.2)
+
 /-! ### non-vacuity -/
 
 def exInner : Ty := .struct "Inner" (.cons "x" false (.prim (.int .i16)) (.cons "y" false (.prim .str) .nil))
@@ -106,6 +152,18 @@ def exVal2 : Val :=
   .struct (.cons (.some (.some (.int 7))) (.cons (.vec .nil) (.cons (.variant 2 (.cons (.int (-1)) (.cons (.str "ß") .nil)))
     (.cons (.map .nil) (.cons (.some (.newtype (.bytes [1, 2]))) .nil)))))
 def exOpts : TraceOpts := { allowNullFields := true, mapAsStruct := false }
+
+/-- a record type inside the proved fragment (nested Option, Vec of Option of struct, map, skipped field, newtype) -/
+def exFragRoot : Ty :=
+  .struct "Root" (.cons "a" false (.option (.option (.prim (.int .i32))))
+    (.cons "v" false (.vec (.option exInner))
+    (.cons "m" false (.map (.prim .str) (.prim .char))
+    (.cons "n" true (.option (.newtype "N" (.prim .bytes))) .nil))))
+def exFragVal : Val :=
+  .struct (.cons (.some .none) (.cons (.vec (.cons (.some (.struct (.cons (.int 3) (.cons (.str "ab") .nil)))) (.cons .none .nil)))
+    (.cons (.map (.cons (.str "k") (.char 65) .nil)) (.cons .none .nil))))
+example : frag exFragRoot = true ∧ wt exFragRoot exFragVal = true := by decide +kernel
+example : frag exRoot = false := by decide +kernel
 
 example : wt exRoot exVal1 = true ∧ wt exRoot exVal2 = true := by decide +kernel
 /-- the documented collapse really happens (`Some(None)` ↦ `None`) and only there -/
